@@ -37,9 +37,8 @@ func genC14(seed uint64, tier string) any {
 	p := &C14Plan{Shrink: []string{"procs", "daemon"}}
 	if r.Bool(0.02) {
 		p.Real = genReal(r)
-		p.Real.Cancel = ""
 		if p.Real.Payload == "ignore-int" {
-			p.Real.Payload = "normal"
+			p.Real.Payload = "last-words" // (the 10 s kill escalation is C13's subject)
 		}
 		return p
 	}
